@@ -264,8 +264,8 @@ def run_scalar(ctx, table, tag):
         idx += 1
         covered.add(name)
         # every shard: its own random points; the fixed grids are done by one shard per function
-        pts = [rng.uniform(-5, 5) for _ in range(ctx.pick(30, 1500))]
-        pts += [rng.choice([-1, 1]) * 10 ** rng.uniform(-6, 3) for _ in range(ctx.pick(20, 800))]
+        pts = [rng.uniform(-5, 5) for _ in range(ctx.pick(30, 5000))]
+        pts += [rng.choice([-1, 1]) * 10 ** rng.uniform(-6, 3) for _ in range(ctx.pick(20, 3000))]
         fixed = ctx.mine(idx)
         if fixed:
             pts += list(REAL_GRID) + list(POLES.get(name, []))
@@ -404,7 +404,7 @@ def run_matrix_functions(ctx, table):
         if cplx:
             a = a + 1j * np.array([rng.uniform(-3, 3) for _ in range(int(np.prod(shape)))]).reshape(shape)
         return a
-    for i in range(ctx.n(640, 8000)):
+    for i in range(ctx.n(640, 40000)):
         cplx = i % 2 == 1
         shape = rng.choice([(2,), (3,), (4,), (2, 2), (3, 3), (2, 3), (3, 2), (4, 4), (1, 3),
                             (2, 2, 2), (2, 2, 3), (3, 3, 2), (3, 3, 3), (2, 3, 3)])
